@@ -32,6 +32,7 @@ structure ObjOK (bt : List Builtin) (J : Obj → Prop) : Prop where
     J (markFields gn { ob with kind := K, src := some g })
   markAlias : ∀ (ob : Obj) (g : Nat), ob.kind = .unknown → J ob → J { ob with kind := .alias, src := some g }
   clearTp : ∀ ob : Obj, J ob → J { ob with tparams := [] }
+  setGhost : ∀ (ob : Obj) (g : Nat) (b : Bool), ob.kind ≠ .unknown → J ob → J { ob with nsrc := some g, nskip := b }
   declUnder : ∀ (ob : Obj) (o : Nat) (cv : Option Str), ob.kind = .declarationOf → J ob →
     J { ob with under := some o, constVal := if cv.isSome = true then cv else ob.constVal }
 
@@ -136,19 +137,23 @@ theorem fill_allJ {bt : List Builtin} {J : Obj → Prop} (k : ObjOK bt J) {w : U
       exact runKids_allJ k hw hj _ kids _ _ h2 j2 hr
 
 theorem addMethods_allJ {bt : List Builtin} {J : Obj → Prop} (k : ObjOK bt J) {w : U → Nat → Option Name → Option (U × Nat)}
-    (hw : WalkOK bt w) (hj : WalkJOK bt J w) (v2 : Bool) (u : U) (o : Nat) (ms : List GMethod) (u' : U) (o' : Nat)
-    (hi : Inv bt u) (h : AllJ J u) (hf : addMethods v2 w u o ms = some (u', o')) : AllJ J u' := by
+    (hw : WalkOK bt w) (hj : WalkJOK bt J w) (v2 : Bool) (u : U) (o : Nat) (ms : List GMethod) {g : Nat} (u' : U) (o' : Nat)
+    (hi : Inv bt u) (h : AllJ J u) (hkn : Known u o) (hf : addMethods v2 w u o ms g = some (u', o')) : AllJ J u' := by
+  obtain ⟨ob0, hob0, hk0⟩ := hkn
   unfold addMethods at hf
   split at hf
-  · cases hr : runKids w o u (methodKids v2 ms) with
+  · obtain ⟨h1, _⟩ := modify_inv (o := o) (ghost_goodUpdate u o g false) hi
+    have s1 : AllJ J (u.modify o (fun ob => { ob with nsrc := some g, nskip := false })) :=
+      modify_allJ (fun ob hob hj' => by rw [hob0] at hob; cases hob; exact k.setGhost ob0 g false hk0 hj') h
+    cases hr : runKids w o (u.modify o (fun ob => { ob with nsrc := some g, nskip := false })) (methodKids v2 ms) with
     | none => simp [hr] at hf
     | some u3 =>
       simp only [hr, Option.some.injEq, Prod.mk.injEq] at hf
       obtain ⟨rfl, rfl⟩ := hf
-      exact runKids_allJ k hw hj o _ _ _ hi h hr
+      exact runKids_allJ k hw hj o _ _ _ h1 s1 hr
   · simp only [Option.some.injEq, Prod.mk.injEq] at hf
     obtain ⟨rfl, rfl⟩ := hf
-    exact h
+    exact modify_allJ (fun ob hob hj' => by rw [hob0] at hob; cases hob; exact k.setGhost ob0 g true hk0 hj') h
 
 /-- **walk_keeps_object_invariants** -/
 theorem walk_allJ (bt : List Builtin) (F : Facts) (v2 : Bool) (J : Obj → Prop) (k : ObjOK bt J) :
@@ -195,7 +200,10 @@ theorem walk_allJ (bt : List Builtin) (F : Facts) (v2 : Bool) (J : Obj → Prop)
             simp only [hr] at hw
             obtain ⟨h3, _⟩ := runKids_inv ihw _ _ _ _ h2 hr
             have s3 := runKids_allJ k ihw ih _ _ _ _ h2 s2 hr
-            exact addMethods_allJ k ihw ih v2 u3 _ ms u' o h3 s3 hw
+            have hkn2 : Known ((U.type bt u (nameOf v2 (F.str g))).1.modify (U.type bt u (nameOf v2 (F.str g))).2 (fun ob => { ob with kind := .alias, src := some g }))
+                (U.type bt u (nameOf v2 (F.str g))).2 := ⟨_, modify_get_eq hob1, by simp⟩
+            obtain ⟨_, g3⟩ := runKids_inv ihw _ _ _ _ h2 hr
+            exact addMethods_allJ k ihw ih v2 u3 _ ms u' o h3 s3 (hkn2.mono g3) hw
       · simp only [ha, Bool.false_eq_true, if_false] at hw
         by_cases hsi : (v2 && isStructOrIface (F.node und)) = true
         · simp only [hsi, if_true] at hw
@@ -233,7 +241,12 @@ theorem walk_allJ (bt : List Builtin) (F : Facts) (v2 : Bool) (J : Obj → Prop)
                   simp only [hr5] at hw
                   obtain ⟨h5, _⟩ := runKids_inv ihw o3 _ _ _ h4 hr5
                   have s5 := runKids_allJ k ihw ih o3 _ _ _ h4 s4 hr5
-                  exact addMethods_allJ k ihw ih v2 u5 o3 ms u' o h5 s5 hw
+                  obtain ⟨_, g4⟩ := modify_inv (o := o3) (f := fun ob => { ob with tparams := [] })
+                    (fun ob _ => ⟨rfl, fun _ => rfl, fun r hr => .inl (by
+                      simp only [refs, List.map_nil, List.append_nil, List.mem_append] at hr ⊢
+                      exact .inl hr)⟩) p3.inv
+                  obtain ⟨_, g5⟩ := runKids_inv ihw o3 _ _ _ h4 hr5
+                  exact addMethods_allJ k ihw ih v2 u5 o3 ms u' o h5 s5 ((p3.good.1.mono g4).mono g5) hw
         · simp only [hsi, Bool.false_eq_true, if_false] at hw
           obtain ⟨h2, _, _⟩ := type_inv (bt := bt) (nameOf v2 (F.str g)) hi
           have s2 := type_allJ k (nameOf v2 (F.str g)) hs
@@ -249,7 +262,7 @@ theorem walk_allJ (bt : List Builtin) (F : Facts) (v2 : Bool) (J : Obj → Prop)
               simp only [hw2] at hw
               have p3 := ihw _ _ _ _ _ h2 hw2
               have s3 := ih _ und (some (nameOf v2 (F.str g))) u3 o3 h2 s2 hw2
-              exact addMethods_allJ k ihw ih v2 u3 o3 ms u' o p3.inv s3 hw
+              exact addMethods_allJ k ihw ih v2 u3 o3 ms u' o p3.inv s3 p3.good.1 hw
     | _ =>
       have hsh : ∃ K kids, shape v2 (F.node g) = some (K, kids) := by rw [hn]; exact ⟨_, _, rfl⟩
       obtain ⟨K, kids, hsh⟩ := hsh
@@ -346,6 +359,7 @@ theorem noSrc_ok (bt : List Builtin) : ObjOK bt (NoSrcOK bt) where
     rw [this] at hs; cases hs
   markAlias := fun _ _ _ _ hs => by cases hs
   clearTp := fun _ h hs => h hs
+  setGhost := fun _ _ _ _ h hs => h hs
   declUnder := fun _ _ _ hk _ _ => .inr (.inl hk)
 
 /-- both loaders, any sequence of incremental loads: every object without a source node is a placeholder, a declaration
